@@ -763,6 +763,16 @@ class Repo:
             gw = np.asarray(g, dtype=np.float64)
             if gw.shape != np.asarray(w).shape or not np.array_equal(_bits(gw), _bits(w)):
                 self.ctx.fail("read:" + key[0], "key %r entry %r: read back %r, last written %r" % (key, k, _brief(g), _brief(w)))
+        # what the caller does with a result is his own business: it is overwritten and emptied here (unit conversion in place, keys
+        # popped), and the next read of the key - with or without a write in between - still has to come from what was written
+        if isinstance(got, dict):
+            for k in list(got):
+                g = got[k]
+                if isinstance(g, np.ndarray) and g.flags.writeable and g.dtype.kind == "f":
+                    g *= -3.0
+                    g += 7.0
+            for k in list(got)[::2]:
+                del got[k]
 
     def _absent(self, key):
         try:
